@@ -88,6 +88,8 @@ def expected_lifecycle(p):
         return ("ok", None)     # C09: dropping a clone never verifies, never panics
     if action == "noverify":
         return ("ok", None)
+    if action == "noverify_report":
+        action = "report"
     live = int(p.get("clones", 0)) > 0
     if live:
         return ("panic", "clones still alive")
@@ -121,9 +123,9 @@ def lifecycle_neighbourhood(seed_params):
     out = [dict(seed_params)]
     out.append(dict(who="original", action="noverify_clone_of_disabled", panicking=0, clones=0, other_thread=0, recorded=0, unmet=0, helper=0))
     out.append(dict(who="original", action="noverify_clone_of_disabled", panicking=0, clones=0, other_thread=0, recorded=0, unmet=1, helper=0))
-    for who, action in (("original", "drop"), ("original", "verify"), ("original", "report"), ("clone", "drop"), ("original", "noverify")):
+    for who, action in (("original", "drop"), ("original", "verify"), ("original", "report"), ("clone", "drop"), ("original", "noverify"), ("original", "noverify_report")):
         for panicking, clones, other, recorded, unmet, helper in itertools.product((0, 1), (0, 1), (0, 1), (0, 1, 2), (0, 1), (0, 1)):
-            if action == "noverify" and panicking:
+            if action in ("noverify", "noverify_report") and panicking:
                 continue
             q = dict(who=who, action=action, panicking=panicking, clones=clones, other_thread=other, recorded=recorded, unmet=unmet, helper=helper)
             if q not in out:
